@@ -4,8 +4,10 @@ import (
 	"encoding/json"
 	"fmt"
 	"hash/fnv"
+	"os"
 	"sort"
 	"strings"
+	"verifharness/internal/pool"
 
 	"verifharness/internal/proto"
 )
@@ -434,11 +436,67 @@ func checkC14(c *Ctx) {
 		return
 	}
 	p := c.NewPool(0)
-	scopeRuns(c, p, c14Build(c.Seed), func(j *Job, r *proto.Result) { c14Judge(c, j, r) })
+	if os.Getenv("VERIF_ONLY") != "rounds" { // (development aid)
+		scopeRuns(c, p, c14Build(c.Seed), func(j *Job, r *proto.Result) { c14Judge(c, j, r) })
+	}
+	c14Rounds(c, p)
 	// Project.tla: workspaces analysed as a project (entry file + what it requires), both modes
 	projectRuns(c, p, 0, "completion")
 	c.poolStats(p)
 	if surveyMode {
 		sv.dump()
 	}
+}
+
+// c14Rounds: a long editing session on one document -- 24 rounds of "type a new local, save" -- followed by one more
+// edit that is not saved; completion of the common prefix must then offer every local typed so far, the unsaved one
+// included (the analyses of edited texts are cached and evicted; what is offered must not depend on that).
+func c14Rounds(c *Ctx, p *pool.Pool) {
+	text := "local locvfirst = 0\n"
+	pc := &proto.Case{ID: 1, Files: map[string]string{"r.lua": text}, Init: json.RawMessage(allOnLocal)}
+	pc.Steps = append(pc.Steps, openStep("r.lua", text))
+	want := []string{"locvfirst"}
+	ver := 2
+	for i := 0; i < 24; i++ {
+		nl := strings.Count(text, "\n")
+		add := fmt.Sprintf("local locv%02d = %d\n", i, i)
+		pc.Steps = append(pc.Steps, changeStep("r.lua", ver, nl, 0, nl, 0, add))
+		ver++
+		text += add
+		want = append(want, fmt.Sprintf("locv%02d", i))
+		pc.Steps = append(pc.Steps, proto.Step{M: "fs.write", Path: "r.lua", Text: text},
+			proto.Step{M: "textDocument/didSave", N: true, P: json.RawMessage(fmt.Sprintf(`{"textDocument":{"uri":"file://$ROOT/r.lua"},"text":%s}`, jstr(text)))})
+		if i%2 == 1 {
+			// every second round the document is also closed and opened again
+			pc.Steps = append(pc.Steps, proto.Step{M: "textDocument/didClose", N: true, P: json.RawMessage(`{"textDocument":{"uri":"file://$ROOT/r.lua"}}`)}, openStep("r.lua", text))
+			ver = 2
+		}
+	}
+	nl := strings.Count(text, "\n")
+	pc.Steps = append(pc.Steps, changeStep("r.lua", ver, nl, 0, nl, 0, "local locvnew = 1\nlocv"))
+	want = append(want, "locvnew")
+	pc.Steps = append(pc.Steps, proto.Step{M: "textDocument/completion", P: compParams("r.lua", nl+1, 4)})
+	raw, _ := json.Marshal(map[string]interface{}{"fam": "rounds", "n": 24})
+	p.RunSlice([][]*proto.Case{{pc}}, func(_ *proto.Case, res *proto.Result) {
+		c.Rep.Eval("rounds")
+		if res.Crash != "" || res.Hang {
+			c.Rep.Violation(raw, fmt.Sprintf("24 edit-and-save rounds on one document: server died or hung (crash=%q)", res.Crash))
+			return
+		}
+		labels, _ := compLabels(res.Steps[len(res.Steps)-1].Reply)
+		got := map[string]bool{}
+		for _, l := range labels {
+			got[l] = true
+		}
+		var miss []string
+		for _, w := range want {
+			if !got[w] {
+				miss = append(miss, w)
+			}
+		}
+		if len(miss) > 0 {
+			c.Rep.Violation(raw, fmt.Sprintf("after 24 edit-and-save rounds (every second one with close and reopen) and one more unsaved edit, completion of 'locv' at the end of the document does not offer the visible locals %v", miss))
+		}
+	})
+	c.Rep.Traces++
 }
